@@ -29,7 +29,8 @@ Streams (all from chk.rng):
   poke    the primitive operations of the Model's step function are applied to a real engine
           (`_PySignalState.update`, `_PyMemoryState.write`, `commit`, `_PyTimeline.set_waker/advance`,
           `PyClockProcess.run`) and the object graph is compared after every operation, then after reset.
-  plan    `platform.build(..., do_build=False)` twice on iCE40 / ECP5 / Gowin; synthetic plans with random
+  plan    `platform.build(..., do_build=False)` twice on iCE40 / ECP5 / Gowin, and again in fresh interpreters
+          under the hash seeds of `diff` (digest, file order, archive bytes); synthetic plans with random
           file names (nested, unicode, names that `pathlib` normalises to the same path, file/directory
           conflicts, `..`, absolute) added in two orders: `files`, `digest()` (= BLAKE2b of the Model's digest
           input = of the Spec's identity), `archive` to BytesIO twice (bytes equal; members read back =
@@ -330,6 +331,21 @@ def child_main():
     mode = sys.argv[1]
     seeds = [int(x) for x in sys.argv[2:]]
     out = []
+    if mode == "plan":
+        import warnings
+        warnings.simplefilter("ignore")
+        for s in seeds:
+            for kind in ("ice40", "ecp5", "gowin"):
+                try:
+                    plan = make_platform(kind).build(platform_design(s), do_build=False)
+                    files = {n: hashlib.sha256(c.encode("utf-8") if isinstance(c, str) else bytes(c)).hexdigest()
+                             for n, c in plan.files.items()}
+                    out.append({"seed": s, "kind": kind, "digest": plan.digest().hex(), "files": files,
+                                "order": list(plan.files), "archive": hashlib.sha256(archive_bytes(plan)).hexdigest()})
+                except Exception as e:  # noqa: BLE001
+                    out.append({"seed": s, "kind": kind, "error": f"{common.errkind(e)}: {e}"[:300]})
+        sys.stdout.write(json.dumps({"hashseed": os.environ.get("PYTHONHASHSEED"), "results": out}) + "\n")
+        return
     for s in seeds:
         k1, t1 = convert_once(s)
         k2, t2 = convert_once(s)
@@ -1568,6 +1584,9 @@ def platform_case_real(args):
         a, b = plans
         out["script"] = a.script
         out["files"] = plan_view(a)
+        out["files_sha"] = {n: hashlib.sha256(bytes.fromhex(h)).hexdigest() for n, h in out["files"]}
+        out["order"] = list(a.files)
+        out["archive_sha"] = hashlib.sha256(archive_bytes(a)).hexdigest()
         out["same_files"] = list(a.files.items()) == list(b.files.items())
         if not out["same_files"]:
             for (n1, c1), (n2, c2) in zip(a.files.items(), b.files.items()):
@@ -1724,7 +1743,7 @@ def judge_plan(chk, tag, base, script, real, m, digests):
     return ok
 
 
-def stream_plan(chk, n_platform, n_synth):
+def stream_plan(chk, n_platform, n_synth, hashseeds=()):
     rng = chk.rng
     pjobs = [(kind, rng.getrandbits(32)) for kind in ("ice40", "ecp5", "gowin") for _ in range(n_platform)]
     synth = [gen_plan(rng) for _ in range(n_synth)]
@@ -1790,7 +1809,52 @@ def stream_plan(chk, n_platform, n_synth):
         chk.hist("plan: extract outcome", r["extract"].get("err", "ok"))
         if judge_plan(chk, "synthetic plan", base, p["script"], r, m, [("call order", r["digest"]), ("permuted", r["digest_perm"])]):
             n_ok += 1
-    chk.extra["plan"] = {"platform_cases": len(pjobs), "synthetic": n_synth, "agree": n_ok}
+    # the same platform plans prepared in fresh interpreters under different hash seeds
+    pseeds = sorted({seed for _k, seed in pjobs})
+    n_cross = 0
+    if hashseeds:
+        with ThreadPoolExecutor(max_workers=min(16, os.cpu_count() or 4)) as tex:
+            outs = list(tex.map(lambda h: run_child(h, pseeds, mode="plan"), hashseeds))
+        ref = {(r["kind"], r["seed"]): r for r in presults if "error" not in r}
+        seen = {}
+        for h, o in zip(hashseeds, outs):
+            for r in o["results"]:
+                chk.count(1)
+                n_cross += 1
+                key = (r["kind"], r["seed"])
+                base = {"stream": "plan-hashseed", "platform": r["kind"], "design_seed": r["seed"], "hashseed": h}
+                if "error" in r:
+                    first = seen.setdefault(key, (h, r))
+                    if "error" not in first[1] or first[1]["error"] != r["error"]:
+                        report(chk, f"platform.build on {r['kind']} fails differently under PYTHONHASHSEED={h} and {first[0]}",
+                               dict(base, kind="plan-hashseed", a=r.get("error"), b=first[1].get("error"), classes=[]))
+                    continue
+                first = seen.setdefault(key, (h, r))
+                other = first[1]
+                mine = ref.get(key)
+                for who, o2, h2 in (("another interpreter", other, first[0]),
+                                    ("this interpreter", {"digest": mine["digest"][0], "files": mine["files_sha"],
+                                                          "order": mine["order"], "archive": mine["archive_sha"]}
+                                     if mine else None, "harness")):
+                    if o2 is None or "error" in o2:
+                        continue
+                    if o2["digest"] != r["digest"]:
+                        diff_files = [n for n in r["files"] if o2.get("files", r["files"]).get(n) != r["files"][n]]
+                        report(chk, f"the plan prepared on {r['kind']} has a different digest under PYTHONHASHSEED={h} than in "
+                                    f"{who} (PYTHONHASHSEED={h2}); differing files: {diff_files[:4]}",
+                               dict(base, kind="plan-hashseed", other_hashseed=h2, differing_files=diff_files, classes=[]))
+                        break
+                    if "archive" in o2 and o2["archive"] != r["archive"]:
+                        report(chk, f"the plan prepared on {r['kind']} archives to other bytes under PYTHONHASHSEED={h} than "
+                                    f"under {h2}", dict(base, kind="plan-hashseed-archive", other_hashseed=h2, classes=[]))
+                        break
+                    if "order" in o2 and o2["order"] != r["order"]:
+                        # same files, same digest, same archive: only the insertion order of `plan.files` differs
+                        chk.not_shown(f"the plan prepared on {r['kind']} holds its files in another insertion order under "
+                                      f"PYTHONHASHSEED={h} than under {h2}", dict(base, a=r["order"], b=o2["order"]))
+                        break
+    chk.extra["plan"] = {"platform_cases": len(pjobs), "synthetic": n_synth, "agree": n_ok,
+                         "platform_plans_in_fresh_interpreters": n_cross}
 
 
 def stream_sort(chk, n):
@@ -1818,11 +1882,11 @@ def run(chk):
         return
     quick = chk.tier == "quick"
     rng = chk.rng
-    n_designs = 96 if quick else 480
+    n_designs = 96 if quick else 360
     hashseeds = [0] + sorted(rng.sample(range(1, 100000), 5 if quick else 47))
-    chunk = 6 if quick else 24
+    chunk = 6 if quick else 30
     n_frag = 600 if quick else 12000
-    n_sim = 160 if quick else 3000
+    n_sim = 160 if quick else 2400
     n_poke = 150 if quick else 3000
     n_platform = 2 if quick else 12
     n_synth = 300 if quick else 6000
@@ -1843,7 +1907,7 @@ def run(chk):
     stage("sim")
     stream_poke(chk, n_poke)
     stage("poke")
-    stream_plan(chk, n_platform, n_synth)
+    stream_plan(chk, n_platform, n_synth, hashseeds if quick else hashseeds[:12])
     stage("plan")
 
     classes_seen = chk.extra.get("distribution", {}).get("violation classes", {})
